@@ -417,6 +417,7 @@ pub struct RenderStats {
     pub specific_end: bool,
     pub generic_end: bool,
     pub lines: usize,
+    pub exit_on_error_other_spelling: bool,
 }
 
 pub struct Renderer<'a, 'b> {
@@ -601,7 +602,12 @@ impl<'a, 'b> Renderer<'a, 'b> {
                     }
                 }
                 Stmt::ExitOnError(b) => {
-                    let l = format!("exit_on_error {}", b);
+                    // the state is the truthiness of the argument (one rule, C06): any spelling of it
+                    let v = if *b { *self.t.pick_ref(&["true", "true", "1", "yes", "TRUE", "on", "enabled"]) } else { *self.t.pick_ref(&["false", "false", "0", "no", "FALSE", "No"]) };
+                    if v != "true" && v != "false" {
+                        self.rs.exit_on_error_other_spelling = true;
+                    }
+                    let l = format!("exit_on_error {}", v);
                     self.line(depth, &l);
                 }
             }
@@ -637,6 +643,7 @@ pub fn render(p: &Program, t: &mut Tape, probes: bool) -> Rendered {
 }
 
 pub struct RenderedSplit {
+    pub rs: RenderStats,
     pub main: String,
     pub lib: String,
     pub line_of: HashMap<u32, usize>,
@@ -667,7 +674,7 @@ pub fn render_split(p: &Program, t: &mut Tape, probes: bool, include_line: &str)
     r.out.push('\n');
     r.rs.lines += 1;
     r.block(&p.main, 0, &p.fns);
-    RenderedSplit { main: r.out, lib, line_of: r.line_of, file_of: r.file_of }
+    RenderedSplit { rs: r.rs, main: r.out, lib, line_of: r.line_of, file_of: r.file_of }
 }
 
 // -------------------------------------------------------------------------------------------------
